@@ -433,7 +433,7 @@ pub fn c11(o: &Opts, t: &mut Tracer) -> Value {
     let mut rng = rng_for(o.seed, 0xC11);
     let mut histories = 0u64;
     let kinds = ["100", "refuseBare", "refuseFields", "refuseFieldsClose"];
-    let rounds = if o.quick() { 1 } else { 24 };
+    let rounds = if o.quick() { 1 } else { 100 };
     for round in 0..rounds {
         for ver10 in [false, true] {
             for (ki, kind) in kinds.iter().enumerate() {
